@@ -356,35 +356,36 @@ def r5(ctx):
     ctx.check("C03.R5", p is None, key(f, "always-reaps"), site(f, wp[0]),
               "reap_workers can return without calling waitpid (early return): a child that is not in WORKERS (the re-exec'ed master) is never reaped, reexec_pid is never reset",
               "waitpid on every call", path=p and g.fmt_path(p))
-    loop = f.module.enclosing(wp[0], ast.While)
-    ctx.check("C03.R5", loop is not None and const(loop.test, NO) in (True, 1), key(f, "reap-loop"), site(f, wp[0]), "waitpid is not called in an unconditional loop: several dead children delivered as one SIGCHLD would be left as zombies",
-              "while True loop")
-    if loop is not None:
-        wn = "-1" in norm(wp[0].args[0]) and "WNOHANG" in norm(wp[0])
-        ctx.check("C03.R5", wn, key(f, "reap-any-nohang"), site(f, wp[0]), "waitpid is not waitpid(-1, WNOHANG): it would block the master or miss children", "waitpid(-1, WNOHANG)")
-        st = f.module.enclosing(wp[0], ast.Assign)
-        pidv = st.targets[0].elts[0].id if st is not None and isinstance(st.targets[0], ast.Tuple) and isinstance(st.targets[0].elts[0], ast.Name) else None
-        ctx.need(pidv, "C03.R5: `wpid, status = os.waitpid(..)` not recognised")
-        brks = [n for n in g.stmts(ast.Break) if f.module.enclosing(n.ast, (ast.While, ast.For)) is loop]
-        rets = [n for n in g.stmts(ast.Return) if f.module.enclosing(n.ast, (ast.While, ast.For)) is loop]
+    # reap until empty: once a waitpid call has returned, the function returns normally only over an edge on which
+    # "no child was reaped" is established (whatever the loop looks like: `while True` + break, primed `while wpid:`)
+    pidvs = set()
+    for c in wp:
+        st = f.module.enclosing(c, ast.Assign)
+        if st is not None and isinstance(st.targets[0], ast.Tuple) and isinstance(st.targets[0].elts[0], ast.Name):
+            pidvs.add(st.targets[0].elts[0].id)
+        ctx.check("C03.R5", "-1" in norm(c.args[0]) and "WNOHANG" in norm(c), key(f, "reap-any-nohang"), site(f, c), "waitpid is not waitpid(-1, WNOHANG): it would block the master or miss children", "waitpid(-1, WNOHANG)")
+    ctx.need(pidvs, "C03.R5: `wpid, status = os.waitpid(..)` not recognised")
 
-        def recog(e):
-            if isinstance(e, ast.Name) and e.id == pidv:
-                return -1       # C = 'no child was reaped'; `wpid` true => a child was reaped
-            c = compare(e)
-            if c and isinstance(c[0], ast.Name) and c[0].id == pidv and const(c[2], NO) == 0:
-                return +1 if c[1] is ast.Eq else (-1 if c[1] in (ast.NotEq, ast.Gt) else None)
-            return None
-        for b in brks + rets:
-            # leaving the loop is allowed only on the edge where no child was reaped
-            edges = []
-            for t in g.tests():
-                pol = recog(t.ast)
-                if pol is not None:
-                    edges.append((t, "false" if pol < 0 else "true"))
-            p = g.path(g.entry, [b], without_edges=edges, follow_exc=False)
-            ctx.check("C03.R5", p is None, key(f, "leave-only-when-empty|" + b.text), site(f, b), "the reap loop can be left although a child was just reaped (remaining zombies are not collected until the next SIGCHLD)",
-                      "loop left only when waitpid returned no child", path=p and g.fmt_path(p))
+    def recog(e):
+        if isinstance(e, ast.Name) and e.id in pidvs:
+            return -1       # C = 'no child was reaped'; `wpid` true => a child was reaped
+        c = compare(e)
+        if c and isinstance(c[0], ast.Name) and c[0].id in pidvs and const(c[2], NO) == 0:
+            return +1 if c[1] is ast.Eq else (-1 if c[1] in (ast.NotEq, ast.Gt) else None)
+        return None
+    edges = []
+    for t in g.tests():
+        pol = recog(t.ast)
+        if pol is not None:
+            edges.append((t, "false" if pol < 0 else "true"))
+    ctx.check("C03.R5", bool(edges), key(f, "reap-loop"), site(f, wp[0]), "the result of waitpid is never tested: several dead children delivered as one SIGCHLD would be left as zombies", "reap until waitpid returns no child")
+    loop = True
+    if loop is not None:
+        for c in wp:
+            for w in nodes_with(f, c):
+                p = g.path(w, [g.exit], without_edges=edges, follow_exc=False)
+                ctx.check("C03.R5", p is None, key(f, "leave-only-when-empty"), site(f, w), "reap_workers can return although a child was just reaped (remaining zombies are not collected until the next SIGCHLD)",
+                          "left only when waitpid returned no child", path=p and g.fmt_path(p))
         # ECHILD tolerated, other errors re-raised
         hs = [h for h in walk_own(f.node) if isinstance(h, ast.ExceptHandler) and any(wp[0] is x for st2 in f.module.enclosing(h, ast.Try).body for x in ast.walk(st2))]
         ctx.check("C03.R5", any("ECHILD" in norm(h) for h in hs), key(f, "echild"), site(f), "ECHILD (no children) is not tolerated by reap_workers", "ECHILD ends the loop quietly")
